@@ -164,6 +164,26 @@ func init() {
 					s.Body.Data = s.Body.Data[:at]
 				}
 			}
+			// an informational (1xx) response before the real one must not change anything
+			info := 0
+			if cutKind == 0 {
+				info = []int{0, 103, 100}[c.Choose("informational-response-first", 3)]
+			}
+			if info != 0 {
+				plain := *call
+				call.Mutate = func(sr *wire.ServerResp, rep *world.Reply) {
+					if sr == nil {
+						rep.Informational = info
+					}
+				}
+				c.Attr("~informational", fmt.Sprint(info))
+				if po := plain.run(); po.Err == nil && po.Ex.Panic == nil && po.CResp != nil && po.CResp.OK() {
+					if ho := call.run(); ho.Err == nil && ho.Ex.Panic == nil && ho.CResp != nil && !ho.CResp.OK() {
+						c.Fail("C01.informational-response-ended-the-rpc", "the handler sent HTTP %d before its (successful) response; without it the RPC succeeds, with it the client observed %s\n%s", info, short(semClient(b.Client.form, ho.Ex, world.MsgDesc())), b.key)
+						return
+					}
+				}
+			}
 			obs := call.run()
 			if cutKind > 0 && obs.Err == nil && obs.Ex.Panic == nil {
 				c.Attr("truncated", "true")
